@@ -15,6 +15,34 @@ CHECKS = {
         "Trusts the 25-line reference scan and the plain-data conversion; domain 1<=a<=b on non-empty scaffolds.",
         "3-C12",
     ),
+    "C03": (
+        "exploration",
+        "post-condition on the real FastaStream.write_scaffold (tee captures the bytes of each call) vs an in-memory FASTA model; G-fasta x G-sub x buffer x line-length workload; CLI slice comparing each written .fa/.agp pair with the input FASTA",
+        "Every record written by every write_scaffold call of the workloads (direct streams and pretext-to-asm runs with FASTA in/out) is compared byte-for-byte with the rows applied to the input records by an independent model; record order, uniqueness and AGP object lengths are checked on the CLI pairs.",
+        "Input FASTA in the C04 domain; '?' rows stream forward; trusts vf.ref.fasta_ref and vf.ref.agp_ref.",
+        "3-C03",
+    ),
+    "C04": (
+        "exploration",
+        "reference indexer (whole-file in-memory model) vs index_fasta_file / FastaIndex random access / .fai+.agp cache reload / stream-back, over generated FASTA byte strings x buffer sizes; all (a,b) intervals on records <=40 residues",
+        "Each generated FASTA (LF/CRLF, final newline or not, widths 1..80, IUPAC/other symbols, N-runs across line and buffer boundaries) is indexed with a buffer from 1 up and compared with the reference quintuples, run tiling, random-access slices and masked round trip; malformed files must raise.",
+        "Records >=1 residue, no blank lines; derived gap type not judged.",
+        "3-C04",
+    ),
+    "C13": (
+        "exploration",
+        "differential observer over buffer sizes (index, derived rows, streamed bytes must coincide) + I/O-size monitor (read sizes on the FASTA handle, chunk sizes of the real chunk iterators) + tracemalloc peak bound on sequences/fragments/gaps 300-400 buffers long",
+        "For every generated (file, assembly) pair the results under 10-15 buffer sizes from 1 up are compared; every read and chunk observed is <= buffer; traced peak memory while indexing/streaming 300-400-buffer sequences stays below 6*buffer+64KiB (a whole-sequence accumulation would be >= 300*buffer).",
+        "'At no time' is restated as measured sizes and traced peak on the executions run; memory outside the Python allocator is not seen (no native code in the repo).",
+        "3-C13",
+    ),
+    "C14": (
+        "exploration",
+        "icontract post-conditions on the real Scaffold.reverse and reverse_complement (fire in every workload), exhaustive 256-byte table, streaming law stream(S.reverse()) == revcomp(stream(S)) over G-fasta x G-sub x buffers, in-situ reversals of the remap pipeline",
+        "Every reversal / reverse-complement executed by the workloads is compared with an independent row-mirror and an IUPAC table derived from base sets; the stream law is decided on real streamed bytes.",
+        "For '?' rows only the involution and mirrored-position laws are demanded (DESIGN 3-C14).",
+        "3-C14",
+    ),
     "C18": (
         "exploration",
         "shadow-state monitor on every OverlapResult born from a real lookup; invariant re-derived from rows vs source scaffold after each mutating method (icontract post-conditions + snapshots for the prediction law); direct random op sequences + in-situ remap",
